@@ -9,7 +9,7 @@ use std::sync::atomic::Ordering;
 
 use crate::alloc;
 use crate::consume::CONSUME;
-use crate::countedindex::{past, CountedIndex, Index, Transaction};
+use crate::countedindex::{past, rm_tag, CountedIndex, Index, Transaction};
 use crate::maybe_acquire::{maybe_acquire_fence, MAYBE_ACQUIRE};
 use crate::memory::MemoryManager;
 
@@ -287,6 +287,18 @@ impl ReadCursor {
                     Ok(_) => {
                         fence(Ordering::SeqCst);
                         manager.free(current_ptr, 1);
+                        // Another consumer of the parent stream may have advanced it since
+                        // its position was copied, and writers that scanned the previous
+                        // list were held back by the parent only: now that the new stream
+                        // is published, start it where the parent is.
+                        let now = (*reader.pos).pos_data.load_raw(Ordering::Relaxed);
+                        let moved = rm_tag(now.wrapping_sub(raw));
+                        if moved != 0 {
+                            (*new_reader.pos)
+                                .pos_data
+                                .load_transaction(Ordering::Relaxed)
+                                .commit_direct(moved as Index, Ordering::Release);
+                        }
                         return new_reader;
                     }
                     Err(val) => {
